@@ -29,6 +29,7 @@ RULE = (
     'uested up front / in reverse; chunk boundaries placed on the longitudes where TOAST pixel centres lie exactly (odd multiples of W/'
     '8); a transient EMFILE inside ImageLoader.load_path while a later chunk merges (the chunk is re-run when the error is reported).'
     ' Round 8: large boxes grazing tiles at depth 13-18 just past their outermost pixel centre.'
+    ' Round 9: chunk passes through one PyramidIO object alternating between serial and forked workers, or alternating between two PyramidIO objects on one directory; float maps with large undefined regions cut into three chunk columns at depth 3.'
 )
 ASSUMPTIONS = ["astropy.wcs is the oracle for footprints", "toast_tile_get_coords is trusted here (C05)", "compiled extension as built; .pyx coherent with .c"]
 
